@@ -26,8 +26,8 @@ MANIFEST = {
                   'is decided by an independent pre-image computation.  Exploration level; K5 classified by mechanism.',
     'level_note': 'Trusts the truth models and CPython datetime; rule zones are probed for three years including a leap year.',
 }
-PLAN = {'quick': {'shards': 4, 'timeout': 600, 'budget': 60},
-        'thorough': {'shards': 16, 'timeout': 3000, 'budget': 900}}
+PLAN = {'quick': {'shards': 4, 'timeout': 1800, 'budget': 900},
+        'thorough': {'shards': 16, 'timeout': 7200, 'budget': 2400}}
 LOW, HIW = -62135596800 + 500000, 253402300799 - 500000
 
 
@@ -89,6 +89,12 @@ def check_zone(ctx, tz, label, kind, z, model, rng):
             am = tz.datetime_ambiguous(wall, z)
             o0 = wall.replace(tzinfo=z, fold=0).utcoffset()
             o1 = wall.replace(tzinfo=z, fold=1).utcoffset()
+            # the classification is a property of the wall time: it must not depend on the fold bit of the argument nor on
+            # whether the zone comes attached or as the second argument
+            w1 = wall.replace(fold=1)
+            forms = {'fold=1 + tz': (tz.datetime_exists(w1, z), tz.datetime_ambiguous(w1, z)),
+                     'aware fold=0': (tz.datetime_exists(wall.replace(tzinfo=z)), tz.datetime_ambiguous(wall.replace(tzinfo=z))),
+                     'aware fold=1': (tz.datetime_exists(w1.replace(tzinfo=z)), tz.datetime_ambiguous(w1.replace(tzinfo=z)))}
         except Exception as e:
             ctx.violation('classification-raised', case, '%s: %s' % (type(e).__name__, e))
             continue
@@ -96,6 +102,9 @@ def check_zone(ctx, tz, label, kind, z, model, rng):
             bad.append('datetime_exists=%r but %d instant(s) map to this wall time' % (ex, len(pre)))
         if am != (len(pre) == 2):
             bad.append('datetime_ambiguous=%r but %d instant(s) map to this wall time' % (am, len(pre)))
+        for fname, v in forms.items():
+            if v != (ex, am):
+                bad.append('argument form %r gives exists/ambiguous %r, the naive fold=0 form gives %r' % (fname, v, (ex, am)))
         if len(pre) == 2:
             e0, e1 = D.timedelta(seconds=w - pre[0]), D.timedelta(seconds=w - pre[1])
             if o0 != e0 or o1 != e1:
